@@ -309,6 +309,15 @@ func c13run(sm, useTLS bool, first, lives string) string {
 				cur.Write([]byte("<r xmlns='urn:xmpp:sm:3'/>"))
 				go func(c net.Conn) { time.Sleep(400 * time.Millisecond); c.Close() }(cur)
 			}
+			if sm {
+				// the application goes on sending while the connection is down: the send fails (the stanza stays held
+				// for the resumed session) - and must leave the session usable for everything that follows
+				go func() {
+					defer func() { recover() }()
+					time.Sleep(3 * time.Millisecond)
+					client.SendRaw("<message xmlns='jabber:client' id='while-down'><body>x</body></message>")
+				}()
+			}
 			if refuseMs > 0 {
 				time.Sleep(time.Duration(refuseMs) * time.Millisecond)
 				if err := srv.listen(); err != nil {
